@@ -110,11 +110,17 @@ def build(verbose=False):
         forb = forbidden_scan()
         rc, log1 = sh("coq_makefile -f _CoqProject -o Makefile", cwd=COQ, timeout=120)
         rc, log2 = sh("timeout 3000 make -k -j16", cwd=COQ, timeout=3100)
+        # a file counts as built only if make considers its .vo up to date (a failed
+        # recompilation leaves the OLD .vo behind: ask make what it would still do)
+        rc_n, log_n = sh("timeout 600 make -n -k", cwd=COQ, timeout=700)
+        pending = set(re.findall(r"((?:theories|gen)/[A-Za-z0-9_]+)\.v\b", "\n".join(
+            l for l in log_n.split("\n") if "coqc" in l.lower() or "COQC" in l)))
         built = {}
         for f in coq_sources():
             rel = os.path.relpath(f, COQ)
             vo = f[:-2] + ".vo"
-            built[rel] = os.path.exists(vo) and os.path.getmtime(vo) >= os.path.getmtime(f)
+            built[rel] = (os.path.exists(vo) and os.path.getmtime(vo) >= os.path.getmtime(f)
+                          and rel[:-2] not in pending)
         rc3, log3 = 1, ""
         if built.get("theories/Extract.v"):
             rc3, log3 = sh("ocamlfind ocamlopt -O3 -w -a model.mli model.ml driver.ml -o modelrun",
